@@ -8,12 +8,18 @@ EXPLANATION = (
     "colour per relay' is preserved given the call-site precondition, which is discharged on the AST of "
     "_find_or_create_relay_near (every reused relay is returned under its can_route_network guard); TileGrid.is_available / "
     "mark_occupied / reserve_exact are proved against set-of-tiles postconditions (a relay is placed only on a tile that "
-    "was free, and exactly its footprint becomes occupied). B tier (bounded): the blueprints the real pipeline emits for the placement, interleaving, optimisation, memory and "
+    "was free, and exactly its footprint becomes occupied); _route_connection_with_relays asks the relay network under the "
+    "edge's own network id; _restore_preserved_connection re-attaches a memory / latch wire unchanged only within reach and "
+    "otherwise bridges it on a private network id (or flags the attempt as failed); and, as a frame obligation on "
+    "connection_planner.py, wires enter the plan only through those functions. B tier (bounded): the blueprints the real pipeline emits for the placement, interleaving, optimisation, memory and "
     "latch scopes (user entities far apart, multi-tile prototypes, fan-out, relays) under {no poles, small, medium, big, "
     "substation} x {optimise on/off} are checked against S4 (prototype collision boxes and wire reach from the game data "
     "shipped with draftsman): no two collision boxes intersect; every wire joins two existing entities at connectors they "
     "have, with the same colour at both ends; every circuit wire is no longer than the reach of both ends; and no circuit "
-    "network joins two different components of the compiler's own signal graph (relay isolation)."
+    "network joins two different components of the compiler's own signal graph (relay isolation). The same scope is compiled "
+    "again under a LAYOUT ADVERSARY — the CP-SAT model the real engine builds, with its objective maximised instead of "
+    "minimised (a feasible outcome of a time-limited search, about the worst one): every connection is then far longer than a "
+    "wire reaches and must be bridged by relays, including the wires memories and latches add outside the routed edge set."
 )
 
 
@@ -26,6 +32,11 @@ def scope(tier):
 
 MODES_QUICK = [{"optimize": True}, {"optimize": False}, {"optimize": True, "power_pole_type": "small"},
                {"optimize": True, "power_pole_type": "medium"}]
+# layout adversary (bounded.pipeline.adversarial_layout): the real CP-SAT model with its objective MAXIMISED — a feasible
+# placement a time-limited / overloaded solver may return, with every connection as long as the hard constraints allow
+ADVERSARY_QUICK = [{"optimize": True, "layout_adversary": True}, {"optimize": False, "layout_adversary": True}]
+ADVERSARY_FULL = ADVERSARY_QUICK + [{"optimize": True, "power_pole_type": "medium", "layout_adversary": True},
+                                    {"optimize": True, "power_pole_type": "substation", "layout_adversary": True}]
 MODES_FULL = MODES_QUICK + [{"optimize": True, "power_pole_type": "big"}, {"optimize": True, "power_pole_type": "substation"},
                             {"optimize": False, "power_pole_type": "medium"}]
 
@@ -37,8 +48,17 @@ def run(tier):
     cr.ext_obligations.append(guards.guarded_returns(
         "dsl_compiler/src/layout/connection_planner.py::RelayNetwork._find_or_create_relay_near",
         "can_route_network", ("network_id", "wire_color"), allowed_calls=("_create_relay_directed",)))
+    # frame: a wire enters the plan only through the relay-chain builder (hops within the span, contracts above), the
+    # preserved-wire restorer (contract: unchanged only within reach) or the zero-length self-feedback wire
+    cr.ext_obligations.append(guards.writes_only_through(
+        "dsl_compiler/src/layout/connection_planner.py", "wire_connections", "add_wire_connection",
+        {"_create_relay_chain", "_restore_preserved_connection", "_add_self_feedback_connections"}))
     progs = scope(tier)
     modes = MODES_QUICK if tier == "quick" else MODES_FULL
     cr.bounded_check(run_geometry_scope, "pasteable", progs, modes, ("paste", "relay"),
                      f"{len(progs)} programs x {len(modes)} option sets", cr.known)
+    amodes = ADVERSARY_QUICK if tier == "quick" else ADVERSARY_FULL
+    cr.bounded_check(run_geometry_scope, "pasteable-adversarial-layout", progs, amodes, ("paste", "relay"),
+                     f"{len(progs)} programs x {len(amodes)} option sets, each under the layout adversary (objective of the real CP-SAT model "
+                     "maximised, single worker, deterministic work limit): placements as bad as the hard constraints allow", cr.known)
     return cr.finish()
